@@ -95,8 +95,10 @@ class LeanStage:
     """Regenerate facts, build, grep, audit.  Result is cached by a hash of all
     Lean sources so that repeated checks on an unchanged tree cost ~1 s."""
 
-    def __init__(self, pid):
+    def __init__(self, pid, tier='quick'):
         self.pid = pid
+        self.tier = tier
+        self.leanchecker = None
         self.ok = False
         self.broken = []        # names / messages of proof obligations that no longer check
         self.theorems = {}      # name -> axioms
@@ -148,6 +150,8 @@ class LeanStage:
                     self.theorems = c['theorems']
                     self.ok = True
                     self.log += 'lean stage: cached (sources unchanged)\n'
+                    self._leanchecker(sorted('Properties.' + f[:-5] for f in os.listdir(os.path.join(LEAN, 'Properties'))
+                                             if re.match(r'^%s[a-z]?\.lean$' % self.pid, f)))
                     return
             except Exception:
                 pass
@@ -186,6 +190,17 @@ class LeanStage:
             return
         self.ok = True
         json.dump({'digest': digest, 'ok': True, 'theorems': self.theorems}, open(cache_file, 'w'))
+        self._leanchecker(mods)
+
+    def _leanchecker(self, mods):
+        """thorough tier: the toolchain's independent re-checker replays the compiled property modules"""
+        if self.tier != 'thorough':
+            return
+        rc, out = sh(['lake', 'env', 'leanchecker'] + mods, cwd=LEAN, timeout=3000)
+        self.leanchecker = 'ok' if rc == 0 else 'FAILED: ' + out[-300:]
+        if rc != 0:
+            self.ok = False
+            self.broken.append('leanchecker rejected %s: %s' % (mods, out[-300:]))
 
 
 AUDIT_BODY = '''open Lean Elab Command in
@@ -429,7 +444,7 @@ class PropertyCheck:
 
     def main(self):
         exit_code = 0
-        lean = LeanStage(self.pid).run()
+        lean = LeanStage(self.pid, self.tier).run()
         self.lean = lean
         reported = []
         try:
@@ -570,6 +585,7 @@ class PropertyCheck:
             'exploration_only': self.exploration_only,
             'known_findings_hit': self.known_hits,
             'lean_stage_s': round(lean.wall, 2),
+            'leanchecker': lean.leanchecker,
             'source_facts': lean.facts.get('summary', {}),
         }
         cov.update(self.extra)
